@@ -161,6 +161,9 @@ int main(int argc, char** argv) {
             }
             CASE("lms", {a, b}, [=] { LmsFilterR f(3, 0.1); auto r = f.process(R(a), R(b, 1)); sink(r.e); });
             CASE("rls", {a, b}, [=] { RlsFilterC f(2); auto r = f.process(C(a), C(b, 1)); sink(r.e); });
+            CASE("nlms", {a, b}, [=] { LmsFilterR f(3, 0.5, LmsType::NLMS); auto r = f.process(R(a), R(b, 1)); sink(r.e); auto r2 = f.process(R(a), R(b, 1)); sink(r2.y); });
+            CASE("nlms_c", {a, b}, [=] { LmsFilterC f(2, 0.5, LmsType::NLMS, 0.99); auto r = f.process(C(a), C(b, 1)); sink(r.e); });
+            CASE("rls_r", {a, b}, [=] { RlsFilterR f(3, 0.95, 10.0); auto r = f.process(R(a), R(b, 1)); sink(r.e); auto r2 = f.process(R(a), R(b, 1)); sink(r2.y); });
             // plans applied to inputs of another length (plan length a >= 1)
             if (a >= 1) {
                 CASE("FftPlan", {a, b}, [=] { FftPlan p(a); sink(p(C(b))); });
